@@ -21,7 +21,7 @@ def run(tier, seed):
             (vhd, "panic-histories-debugpools", ["-seed", seed, "-panics", "-n", n, "-len", ln, "-spec=false"], True),
             (vh, "panic-histories-unpoisoned", ["-seed", seed + 1, "-panics", "-n", n, "-len", ln, "-spec=false", "-poison=false"], False),
             (vh, "panic-histories-with-spec", ["-seed", seed + 5, "-panics", "-n", 6 if quick else 60, "-len", ln], False)]
-    common.parallel(lambda j: poolsfam.histories(check, j[0], j[1], j[2], full=j[3]), jobs, jobs=len(jobs))
+    common.parallel_jobs(check, lambda j: poolsfam.histories(check, j[0], j[1], j[2], full=j[3]), jobs, jobs=len(jobs))
     if check.coverage.get("panics_injected", 0) == 0:
         raise common.Inconclusive("no panic was injected: the workloads make no format check")
     check.coverage["rule"] = ("a history = a panic injected at the k-th invocation of the caller-supplied format checker of a format-bearing workload (formats spread over properties, allOf / anyOf / "
